@@ -275,7 +275,10 @@ class S3TapeCassette(TapeCassette):
         # and when a start date is given we can look for specific folders until today (or end_time)
         if start_date:
             end_date = end_date or datetime.utcnow()
-            days = [(start_date + timedelta(days=i)) for i in range((end_date - start_date).days + 1)]
+            # Recordings are kept in a folder per calendar day, cover every calendar day the window touches (a window
+            # shorter than 24 hours can still span two days)
+            first_day = start_date.date()
+            days = [(first_day + timedelta(days=i)) for i in range((end_date.date() - first_day).days + 1)]
             id_prefixes = ['{}/{}/'.format(category, day.strftime(self.DAY_FORMAT)) for day in days]
         else:
             id_prefixes = ['{}/'.format(category)]
